@@ -146,3 +146,37 @@ Qed.
 Theorem client_all_histories cfg sts h : Ctcp.connected (cc_env cfg) = true ->
   exists cs o, client_run cfg (client_init sts) h = Ok (cs, o) /\ Inv (cs_state cs).
 Proof. intros Hconn. apply client_run_ok; [exact Hconn|]. exact inv_init. Qed.
+
+(* ---- non-vacuity: a connected configuration with SASL PLAIN, and a history that goes
+   through every stage (state handlers, CTCP with and without source, CAP LS, SASL) ---- *)
+
+Definition cex_env : Ctcp.env :=
+  Ctcp.mk_env [] (bs "Real Name") (bs "go") (bs "os") (bs "arch") (bs "now") (bs "0s") true.
+Definition cex_cfg : client_cfg :=
+  mkClientCfg (mkConfig (bs "me") (bs "user"))
+    (Some (Sasl.mkMech (bs "PLAIN") (Sasl.sasl_plain_encode (bs "acct") (bs "secret"))))
+    cex_env
+    (Cap.mkCfg (Some (bs "PLAIN")) false false false [] true None [] (bs "me") (bs "user") (bs "Real Name"))
+    (fun l => l) false 0%Z.
+Definition cex_history : list event := [
+  mkEvent (ex_src "srv") None (bs "001") [bs "me"; bs "welcome"];
+  mkEvent (ex_src "me") None (bs "JOIN") [bs "#chan"];
+  mkEvent None None (bs "PRIVMSG") [bs "me"; 1 :: bs "VERSION" ++ [1]];        (* CTCP without a source *)
+  mkEvent (ex_src "zed") None (bs "PRIVMSG") [bs "me"; 1 :: bs "PING 42" ++ [1]];
+  mkEvent None None (bs "CAP") [bs "*"; bs "LS"; bs "sasl multi-prefix"];
+  mkEvent None None (bs "AUTHENTICATE") [bs "+"];
+  mkEvent (ex_src "srv") None (bs "904") [bs "me"; bs "failed"]
+].
+
+Example client_example :
+  Ctcp.connected (cc_env cex_cfg) = true /\
+  exists cs o, client_run cex_cfg (client_init StsState.sts_init) cex_history = Ok (cs, o) /\
+    Inv (cs_state cs) /\
+    List.map (fun x => match x with CSend _ => 1 | CSasl _ => 2 | CCap _ => 3 | CCtcp _ => 4 end) o = [1; 1; 4; 3; 2; 2] /\
+    client_disconnects cex_cfg (client_init StsState.sts_init) cex_history = Ok true.
+Proof.
+  split; [reflexivity|].
+  destruct (client_all_histories cex_cfg StsState.sts_init cex_history eq_refl) as (cs & o & H & I).
+  exists cs, o. split; [exact H|]. split; [exact I|].
+  vm_compute in H. injection H as <- <-. split; vm_compute; reflexivity.
+Qed.
